@@ -13,11 +13,12 @@ META = {
     "coq_targets": ["Props/C19.vo", "Extract/Extract_C19.vo"],
     "technique": "Coq proof (induction over the frame list; fold invariant for the by-track painter) + differential correspondence of the extracted model with the implementation",
     "level_text": "Theorems C19_unique_partition / C19_unique_global / C19_unique_multiseg / C19_by_track / C19_by_track_same_label hold for every label array of every size (unbounded Z labels); the hand-written model is tied to /repo by running the extracted model and the implementation on the same generated arrays and comparing the outputs element by element. C19_unique_is_generated / C19_unique_multiseg_is_generated / C19_by_track_is_generated: the three model functions equal, for all arguments, the code translated on every run from the current _segmentation_utils.py (Gen/LabelUtils_gen.v; fail-closed translator over the numpy combinators of Model/NpRt.v).",
-    "level_note": "Trusted: Coq kernel, extraction (ExtrOcamlBasic), OCaml driver, Python harness. Modelled not verified: numpy elementwise ops and reshape, networkx weakly_connected_components (its answer is an input of the model; the theorem assumes only that (time, seg id) pairs are distinct), uint64 wrap-around is out of scope (labels are unbounded Z in the model).",
+    "level_note": "Trusted: Coq kernel, extraction (ExtrOcamlBasic), OCaml driver, Python harness. Modelled not verified: numpy elementwise ops and reshape, networkx weakly_connected_components (its answer is an input of the model; the theorem assumes only that (time, seg id) pairs are distinct), uint64 wrap-around is out of scope (labels are unbounded Z in the model). Tied to the source in a second way: _segmentation_utils.py is re-translated on every run (harness/translate_numpy_utils.py, fail closed; numpy combinators Model/NpRt.v, trusted one-liners) and proved equal to the model for all arguments (Proofs/LabelUtilsTie.v).",
     "design_ref": "DESIGN.md section 9 (C19)",
     "assumptions": ["labels are non-negative and small enough that adding the running maximum does not wrap in uint64",
                     "by-track: no two solution nodes claim the same (time, seg_id) detection"],
-    "trusted": ["networkx.weakly_connected_components: its component list is fed to the model as an oracle answer (order included)"],
+    "trusted": ["translator harness/translate_numpy_utils.py (closed idiom table; fail closed) with the numpy combinators coq/Model/NpRt.v",
+                "networkx.weakly_connected_components: its component list is fed to the model as an oracle answer (order included)"],
 }
 
 
